@@ -26,7 +26,8 @@ INFO = {
     'assumptions': ['ideal hash / signature model: injective, unforgeable (symex/crypto.py)'],
 }
 MANDATORY = {'cover_data': ['signed-portion-is-the-specified-range'], 'cover_interest': ['signed-portion-is-the-specified-range'],
-             'tamper': ['tampering-detected'], 'sigzero': ['tampering-detected'], 'confuse': ['tampering-detected']}
+             'tamper': ['tampering-detected'], 'sigzero': ['tampering-detected'], 'confuse': ['tampering-detected'],
+             'verify_elastic': ['verifier-accepts', 'end']}
 
 
 def run_sync(coro):
@@ -440,7 +441,47 @@ def h_confuse(eng, case):
     eng.reach('end')
 
 
-HARNESSES = {'confuse': h_confuse, 'sigzero': h_sigzero, 'cover_data': h_cover, 'cover_interest': h_cover, 'tamper': h_tamper}
+def h_verify_elastic(eng, case):
+    """payload of solver-chosen LENGTH (elastic buffer): what the signer was handed and what the verifier is shown after
+    parsing are the same octets for every payload length, signature length and shrink amount - the matching verifier
+    (real code, ideal primitives with payload identity) accepts, and the parameters-digest check accepts"""
+    import ndn.encoding as enc
+    from ndn.security.validator import digest_validator as dv
+    kind, pkt = case['signer'], case['pkt']
+    env.set_clock(lambda: 1700000000123)
+    env.set_nonce(lambda: 0x01020304, lambda: 0x0102030405060708)
+    name = env.name_from_shape(eng, [(1, 1)])
+    payload, n = eng.elastic('payload', 0, case['max'])
+    signer = env.make_signer(eng, kind, for_interest=(pkt == 'interest'), rmin=case.get('rmin', 32), rmax=case.get('rmax'))
+    try:
+        if pkt == 'data':
+            wire = enc.make_data(name, enc.MetaInfo(freshness_period=eng.int('fp', 0, 2 ** 32)), payload, signer)
+            n2, _, c2, sig = enc.parse_data(wire)
+        else:
+            wire = enc.make_interest(name, enc.InterestParam(nonce=eng.int('nonce', 0, 2 ** 32 - 1)), payload, signer)
+            n2, _, c2, sig = enc.parse_interest(wire)
+    except Exception as e:
+        eng.fail('verifier-accepts', 'raises:' + exc_sig(e), repr(e)[:150])
+        return
+    eng.check(c2 is not None and (c2 == payload), 'signed-portion-is-the-specified-range', sig='payload-after-parse')
+    try:
+        ok = verifier_accepts(kind, n2, sig)
+    except Exception as e:
+        eng.fail('verifier-accepts', 'verifier-raises:' + exc_sig(e), repr(e)[:150])
+        return
+    eng.check(ok, 'verifier-accepts', {'signer': kind, 'packet': pkt})
+    if pkt == 'interest':
+        try:
+            okd = run_sync(dv.params_sha256_checker(n2, sig))
+        except Exception as e:
+            eng.fail('params-digest-check-iff', 'raises:' + exc_sig(e))
+            return
+        eng.check(okd, 'params-digest-check-iff', sig='genuine-digest-rejected')
+    eng.observe('payload_octets', n)
+    eng.reach('end')
+
+
+HARNESSES = {'verify_elastic': h_verify_elastic, 'confuse': h_confuse, 'sigzero': h_sigzero, 'cover_data': h_cover, 'cover_interest': h_cover, 'tamper': h_tamper}
 KINDS = ['digest', 'hmac', 'rsa', 'ecdsa', 'ed25519']
 
 
@@ -459,6 +500,15 @@ def cases(tier, seed):
                                {'weight': 10}))
     for kind in ('rsa', 'ed25519', 'hmac'):
         cs.append(('sigzero', {'signer': kind}, {'weight': 20}))
+    for kind in KINDS:
+        for pkt in ('data', 'interest'):
+            if kind == 'ecdsa':
+                for lo in ((70,) if quick else range(32, 73, 4)):
+                    cs.append(('verify_elastic', {'signer': kind, 'pkt': pkt, 'max': 70000 if quick else 2 ** 20,
+                                                  'rmin': lo, 'rmax': min(72, lo + (2 if quick else 3))}, {'weight': 30}))
+            else:
+                cs.append(('verify_elastic', {'signer': kind, 'pkt': pkt, 'max': 70000 if quick else 2 ** 20},
+                           {'weight': 10}))
     for V in ('ecdsa', 'rsa', 'ed25519', 'hmac'):
         for forge in ('hmac-with-the-public-key', 'digest', 'null'):
             if V == 'hmac' and forge.startswith('hmac'):
